@@ -4,7 +4,7 @@
 int main(int argc, char **argv) {
     vf::opts o(argc, argv);
     vf::install_crash_handler();
-    RUN("signal_history", 1, false, scn::signal_history(o, R, o.cases));
+    RUN("signal_history", 1, true, scn::signal_history(o, R, o.cases));
     RUN("signal_mt", o.threads, true, scn::signal_mt(o, R, T, o.cases));
     return 0;
 }
